@@ -23,6 +23,7 @@ import (
 	metav1 "k8s.io/apimachinery/pkg/apis/meta/v1"
 	"k8s.io/apimachinery/pkg/runtime"
 
+	meshconfig "istio.io/api/mesh/v1alpha1"
 	"istio.io/istio/pilot/pkg/model"
 	v3types "istio.io/istio/pilot/pkg/xds/v3"
 	xdsfake "istio.io/istio/pilot/test/xds"
@@ -85,6 +86,12 @@ func newServer(t *testing.T, objs []object) *simServer {
 	}
 	m := mesh.DefaultMeshConfig()
 	m.RootNamespace = "istio-system"
+	m.ExtensionProviders = append(m.ExtensionProviders, &meshconfig.MeshConfig_ExtensionProvider{
+		Name: "otel",
+		Provider: &meshconfig.MeshConfig_ExtensionProvider_EnvoyOtelAls{
+			EnvoyOtelAls: &meshconfig.MeshConfig_ExtensionProvider_EnvoyOpenTelemetryLogProvider{Service: "ns1/otel.example.com", Port: 4317},
+		},
+	})
 	s := xdsfake.NewFakeDiscoveryServer(t, xdsfake.FakeOptions{
 		Configs:           cfgs,
 		KubernetesObjects: kobjs,
